@@ -121,7 +121,7 @@ Proof.
 Qed.
 Print Assumptions C19_in_range_if_proposer_in_range.
 
-(* ---- totality fails on four input classes (known findings of the pinned tree) ---- *)
+(* ---- totality fails on these input classes (known findings of the pinned tree) ---- *)
 (* SimultaneousTuner / SequentialTuner + multi-objective objective: always an exception
    (finding C19.multiobj-unsupported-raises) *)
 Theorem C19_multiobj_unsupported_raises : forall obj sp cfg p g,
@@ -148,16 +148,17 @@ Proof.
 Qed.
 Print Assumptions C19_multiobj_invalid_init_refuted.
 
-(* IOptTuner, multi-objective objective valid on the input but invalid on a graph of the library's
-   front (finding C19.multiobj-invalid-tuned-raises) *)
-Theorem C19_multiobj_invalid_tuned_refuted :
-  exists obj sp cfg p g e, gmv obj g = MVec [1; 2] /\ tune obj sp cfg p g = Raise e.
+(* a graph of the library's front on which the objective is invalid is skipped by the multi-objective final
+   check (fixed in /repo: it used to raise TypeError); here nothing else remains, so the input is returned *)
+Theorem C19_multiobj_invalid_tuned_skipped :
+  exists obj sp cfg p g, gmv obj g = MVec [1; 2] /\
+    tune obj sp cfg p g = Ok (mkOutcome true [g] (MVec [1; 2]) (RList [MVec [1; 2]])).
 Proof.
   exists (table_obj [(map params w_graph, FMulti [1; 2]); (w_tuned, FInvalid)]), w_space,
-         (mkConfig IOpt (1 # 20) true), (mkProposer [w_assign] None [w_assign] []), w_graph, TypeError.
+         (mkConfig IOpt (1 # 20) true), (mkProposer [w_assign] None [w_assign] []), w_graph.
   split; vm_compute; reflexivity.
 Qed.
-Print Assumptions C19_multiobj_invalid_tuned_refuted.
+Print Assumptions C19_multiobj_invalid_tuned_skipped.
 
 (* ---- reflection: the run-time oracle decides the structure clause ---- *)
 Theorem C19_oracle_structure : forall g g', same_structure_b g g' = true <-> map skel g = map skel g'.
